@@ -22,7 +22,7 @@ TraceRegs(t) ==
      [id |-> t.regs[i].id, pass |-> t.regs[i].pass,
       scope |-> [kind |-> t.regs[i].kind, pos |-> t.regs[i].pos, fpos |-> t.regs[i].fpos,
                  filt |-> [has |-> t.regs[i].has, pats |-> t.regs[i].pats], blk |-> t.regs[i].u]]]
-MLen(t) == IF t.isa = "arm64" THEN 4 ELSE 5
+MLen(t) == MarkerLen(t.isa)
 
 MarkersOf(t, inv) == SelectSeq(t.markers, LAMBDA m : m.inv = inv)
 InvsAt(t, reg, u) == SelectSeq(t.invs, LAMBDA i : i.reg = reg /\ i.u = u)
